@@ -32,7 +32,7 @@ def SimCallV (G : GCtx) (g : String) (frames : List Frame) (mp : Int) (args : Li
   match r with
   | (.ok v, st') =>
     st' = { st with out := st'.out, heap := st'.heap } ∧
-      ∃ mem' stk', (stk' = stk ∨ stk' = ⟨v, none⟩ :: stk) ∧
+      ∃ mem' stk', (stk' = stk ∨ ∃ o, OrgOK G.fr o ∧ stk' = ⟨v, o⟩ :: stk) ∧
         RunsCall G g frames mp (args.map (⟨·, none⟩) ++ stk) mem st.world stk' mem' st'.world ∧ MemLe G.fr mp mem mem'
   | (.error (.fatal kd m sp), st') =>
     kd ≠ "StackOverFlow" → RunsCallF G g frames mp (args.map (⟨·, none⟩) ++ stk) mem st.world kd m sp st'.world
@@ -150,11 +150,13 @@ theorem callV_correct (G : GCtx) (hG : G.OK') (fuel : Nat) (g : String) (fd : Fn
     have := List.lookup_eq_none_iff.mp (hall sc hsc p.1 hpT) p hp
     simp at this
   simp only [codeVars_append, List.mem_append] at hvars
-  obtain ⟨mem1, hrunP, hmlP, hrelP⟩ := params_run G A hA fd.sp st.world fd.params vals env0 [[]] mem 1 stk hFn.params
-    hlen (by rw [hAT]; exact hFn.tParams)
+  have hvm : (vals.map (fun v => (⟨v, none⟩ : SVal))).map (·.v) = vals := by
+    rw [List.map_map]; exact List.map_id' vals
+  obtain ⟨mem1, hrunP, hmlP, hrelP⟩ := params_run G A hA fd.sp st.world fd.params (vals.map (⟨·, none⟩)) env0 [[]] mem 1 stk
+    hFn.params (by rw [hlen, List.length_map]) (by rw [hAT]; exact hFn.tParams)
     (by rw [hAN, ← hpc]; exact fun m hm => hvars m (Or.inl (Or.inl (Or.inl (Or.inr hm)))))
     (by rw [hAlab, hAσ, hAc, ← hpc]; exact hpl2) hrel0
-  rw [declAll_single, List.append_nil, hbinds] at hrelP
+  rw [hvm, declAll_single, List.append_nil, hbinds] at hrelP
   rw [← hpc] at hrunP
   obtain ⟨c', hc'⟩ := cgParams_scopes G.mod fd.sp fd.params env0 [] I.scopes0 (by rw [henv0])
   have henvBsc : P.envB.scopes = ((cleanupKey G.mod fd.name, P.cleanup) :: c') :: I.scopes0 := by
@@ -202,9 +204,9 @@ theorem callV_correct (G : GCtx) (hG : G.OK') (fuel : Nat) (g : String) (fd : Fn
     have hout1 : spec1.world = st.world := by rw [← hspec1]; rfl
     cases c <;> simp only [] <;> first | trivial | exact False.elim hS | skip
     · -- return
-      obtain ⟨_, hst1, mem2, hrunS, hmlS⟩ := hS
+      obtain ⟨_, hst1, mem2, oS, hoS, hrunS, hmlS⟩ := hS
       rw [hAfn, hArest, hAmp, hAlab, hAcl, hlabC, hout1] at hrunS
-      refine ⟨?_, mem2, _, Or.inr rfl, RunsCall.intro hFn.code hi0 hhi (hrunP.trans hrunS) hiC hiR,
+      refine ⟨?_, mem2, _, Or.inr ⟨oS, hoS, rfl⟩, RunsCall.intro hFn.code hi0 hhi (hrunP.trans hrunS) hiC hiR,
         (hmlP.mono hmono).trans (hmlS.mono hmono)⟩
       rw [hst1, ← hspec1]
     · -- a statement throws
@@ -260,7 +262,7 @@ theorem entry_run (G : GCtx) (hG : G.OK') (fuel : Nat) (g : String) (fd : FnDef)
       ∃ K, ∀ quantum, K ≤ quantum → ∀ vfuel, ∃ s',
         run G.code G.lim quantum none (vfuel + 1) (mkSI G.s [⟨mangleFnName G.mod g, 0⟩] mp 0 stk mem st.world) = .ok s' ∧
         s'.st = { G.s.st with out := st'.out, heap := st'.heap } ∧ s'.mp = mp ∧ s'.calls = [] ∧
-        (s'.stack = stk ∨ s'.stack = ⟨v, none⟩ :: stk)
+        (s'.stack = stk ∨ ∃ o, OrgOK G.fr o ∧ s'.stack = ⟨v, o⟩ :: stk)
     | (.error (.fatal kd m fsp), st') =>
       kd ≠ "StackOverFlow" → ∃ K, ∀ quantum, K ≤ quantum → ∀ vfuel, ∃ s',
         run G.code G.lim quantum none (vfuel + 1) (mkSI G.s [⟨mangleFnName G.mod g, 0⟩] mp 0 stk mem st.world) =
